@@ -1670,4 +1670,29 @@ theorem overlay_workdir_extended_is_error (i : Inst) (ls : List DLayer) (users :
   have : (m.work == workDir i l.name) = false := by
     rw [hw]; simp [hs]
   simp [this]
+open Lc.Spec.World in
+/-- (specification level) a base layer one of whose import mountpoints carries a mount that is not
+    the configured one is in the error state even when another import lacks its mountpoint
+    directory or its host source: the wrong mount outranks the missing piece -/
+theorem wrong_import_outranks_missing (i : Inst) (ls : List DLayer) (users : List (Bytes × List Layers.User))
+    (l : DLayer) (imp : Layerfile.NeededMount) (src : Bytes) (m : Kernel.KMnt)
+    (h1 : l.file.nmsgs = 0) (h2 : Fs.isDir i.fs (buildDir i l.name) = true)
+    (h3 : l.file.base.isEmpty = true)
+    (hf : (fhsDirs.all fun d => Fs.isDir i.fs (pathJoin [buildDir i l.name, d])) = true)
+    (hr : ∀ x ∈ l.file.mounts, (resolveSource i ls l.name x.source).isSome)
+    (hi : imp ∈ l.file.mounts) (hsrc : resolveSource i ls l.name imp.source = some src)
+    (hmp : Fs.lexists i.fs (pathJoin [buildDir i l.name, imp.mount]) = true)
+    (hse : Fs.lexists i.fs src = true)
+    (ht : topAt i.mnts (pathJoin [buildDir i l.name, imp.mount]) = some m)
+    (hw : importAsConfigured i m imp.fstype src = false) :
+    stateOf i ls users l none = .error := by
+  unfold stateOf
+  simp only [h1, h2, h3, hf]
+  simp
+  have hnone : ¬ ∃ x, x ∈ l.file.mounts ∧ resolveSource i ls l.name x.source = none := by
+    rintro ⟨x, hx, h⟩; have := hr x hx; rw [h] at this; cases this
+  rw [if_neg hnone, if_pos]
+  left
+  refine ⟨imp, hi, ?_⟩
+  simp [hmp, hsrc, hse, ht, hw]
 end Lc.Props.C08
